@@ -64,7 +64,8 @@ def _poison(rng):
 
 def _entry(rng, vr, poison_p, notation=None):
     bg = gen.rand_rgb(rng)
-    large = rng.choice((None, None, None, False, True, True, True, 1, 0))  # (a flag that is truthy/falsy but not a bool: 1, 0)
+    # (a size flag that is truthy / falsy but not a bool: 1, 0, 1.0, 2, "large", "false" - ColorPair goes by its truth value)
+    large = rng.choice((None, None, None, None, False, False, True, True, True, True, 1, 0, 1.0, 2, "large", "false", 0.0))
     thr = refs.target_ratio(premium=vr, large=bool(large))
     band = rng.choice(("pass", "pass-hair", "fix", "fix", "fix-hair", "mid", "hard", "same", "random"))
     trgb, _ = gen.pick_text(rng, bg, thr, band)
